@@ -3,6 +3,7 @@ package main
 import (
 	"bytes"
 	"fmt"
+	"io"
 	"go/parser"
 	"go/token"
 	"math/rand"
@@ -30,6 +31,7 @@ type hEvent struct {
 	Op     string            `json:"op"`               // FileRender | StmtRender | GroupRender | Add | ImportName | ImportAlias | Anon | Prefix
 	Target int               `json:"target,omitempty"` // fragment index
 	Arg    string            `json:"arg,omitempty"`
+	Via    string            `json:"via,omitempty"` // how the render was driven: "" Render twice | "GoString" | "failing-writer" (a render whose writer fails: expected to return that error and to leave no trace)
 	Out    string            `json:"out,omitempty"`
 	Out2   string            `json:"out2,omitempty"` // the immediate repeat of a render
 	Err    string            `json:"err,omitempty"`
@@ -83,14 +85,58 @@ func checkHistory(evs []hEvent, localPath string) []string {
 	add := func(i int, format string, a ...interface{}) {
 		probs = append(probs, fmt.Sprintf("event %d (%s): ", i, evs[i].Op)+fmt.Sprintf(format, a...))
 	}
+	// last clean output per render target; a target is "dirty" when something happened since that may
+	// legitimately change its output (file: any addition, hint, prefix change or fragment render, which can
+	// add an import; fragments and groups: hints and prefix changes for paths not rendered yet)
+	last := map[string]string{}
+	clean := map[string]bool{}
+	dirtyAll := func(fileOnly bool) {
+		for k := range clean {
+			if !fileOnly || k == "F" {
+				clean[k] = false
+			}
+		}
+	}
 	for i, e := range evs {
 		switch e.Op {
+		case "Add":
+			dirtyAll(true)
+		case "ImportName", "ImportAlias", "ImportNames", "Anon", "Prefix":
+			dirtyAll(false)
+		}
+		switch e.Op {
 		case "FileRender", "StmtRender", "GroupRender":
+			key := "F"
+			if e.Op != "FileRender" {
+				key = fmt.Sprintf("%s%d", e.Op[:1], e.Target)
+			}
+			if e.Via == "failing-writer" {
+				// the harness made the writer fail: the render must report it, and must leave no trace
+				// (judged by the next render of the same target, which is compared with the last clean output)
+				if e.Err == "" {
+					add(i, "[repeat] a render whose writer fails returned nil")
+				}
+				if e.Op != "FileRender" {
+					clean["F"] = false // the fragment was rendered (only the final write failed): its imports are registered
+				}
+				continue
+			}
+			if e.Err == "" && clean[key] && last[key] != e.Out {
+				add(i, "[repeat] nothing that could change this output happened since it was last rendered (only renders, some of them failing on purpose), yet the bytes differ:\n--- before ---\n%s\n--- now ---\n%s", last[key], e.Out)
+			}
+			if e.Err == "" {
+				last[key], clean[key] = e.Out, true
+				if e.Op != "FileRender" {
+					clean["F"] = false // a fragment rendered with the File may have added an import to it
+				}
+			}
 			if e.Err != "" {
 				add(i, "render failed: %s", mon.Trunc(e.Err, 300))
 				continue
 			}
-			if e.Err2 != "" {
+			if e.Via == "GoString" {
+				// one render through GoString; nothing to compare with an immediate repeat
+			} else if e.Err2 != "" {
 				add(i, "[repeat] the immediate repeat of a successful render failed: %s", mon.Trunc(e.Err2, 300))
 			} else if e.Out2 != e.Out {
 				add(i, "[repeat] the immediate repeat of the render produced different bytes:\n--- first ---\n%s\n--- second ---\n%s", e.Out, e.Out2)
@@ -179,18 +225,26 @@ func c08Execute(rnd *rand.Rand) *c08Run {
 	}
 	var frags []*jen.Statement
 	var groups []*jen.Group
+	var usedPaths []int
 	for i := 0; i < 3; i++ {
-		frags = append(frags, c08Stmt(rnd, rnd.Intn(len(c08Paths))))
+		pi := rnd.Intn(len(c08Paths))
+		usedPaths = append(usedPaths, pi)
+		frags = append(frags, c08Stmt(rnd, pi))
 	}
 	for i := 0; i < 2; i++ {
 		pi := rnd.Intn(len(c08Paths))
+		usedPaths = append(usedPaths, pi)
 		jen.BlockFunc(func(g *jen.Group) {
 			g.Add(jen.Id("_").Op("=").Qual(c08Paths[pi], fmt.Sprintf("Sym%dX", pi)))
 			g.Add(jen.Switch().Block(jen.Case(jen.Lit(1)).Block(nil), jen.Default().Block()))
 			groups = append(groups, g)
 		})
 	}
-	f.Add(c08Stmt(rnd, rnd.Intn(len(c08Paths))))
+	{
+		pi := rnd.Intn(len(c08Paths))
+		usedPaths = append(usedPaths, pi)
+		f.Add(c08Stmt(rnd, pi))
+	}
 	referenced := map[string]bool{}
 	render := func(fn func(buf *bytes.Buffer) error) (string, string) {
 		buf := &bytes.Buffer{}
@@ -207,7 +261,42 @@ func c08Execute(rnd *rand.Rand) *c08Run {
 	for op := 0; op < nops; op++ {
 		var e hEvent
 		var target jen.Code
-		switch k := rnd.Intn(12); {
+		failing := func(fn func(w io.Writer) error) (string, string) {
+			var err error
+			if p, what := mon.Guard(func() { err = fn(&monWriter{failAt: 1, mode: rnd.Intn(3)}) }); p {
+				return "", "panic: " + what
+			}
+			if err == nil {
+				return "", ""
+			}
+			return "", "error: " + mon.Trunc(err.Error(), 200)
+		}
+		viaGoString := func(fn func() string) (string, string) {
+			var out string
+			if p, what := mon.Guard(func() { out = fn() }); p {
+				return "", "panic: " + mon.Trunc(what, 400)
+			}
+			return out, ""
+		}
+		switch k := rnd.Intn(14); {
+		case k == 12: // a render that fails because the caller's writer fails
+			switch rnd.Intn(3) {
+			case 0:
+				e.Op, e.Via = "FileRender", "failing-writer"
+				_, e.Err = failing(func(w io.Writer) error { return f.Render(w) })
+			case 1:
+				e.Op, e.Via, e.Target = "StmtRender", "failing-writer", rnd.Intn(len(frags))
+				fr := frags[e.Target]
+				_, e.Err = failing(func(w io.Writer) error { return fr.RenderWithFile(w, f) })
+			default:
+				e.Op, e.Via, e.Target = "GroupRender", "failing-writer", rnd.Intn(len(groups))
+				g := groups[e.Target]
+				_, e.Err = failing(func(w io.Writer) error { return g.RenderWithFile(w, f) })
+			}
+		case k == 13: // File.GoString: one more way in which names appear in an output produced with the File
+			e.Op, e.Via = "FileRender", "GoString"
+			e.Out, e.Err = viaGoString(func() string { return f.GoString() })
+			e.Out2 = e.Out
 		case k < 4:
 			e.Op = "FileRender"
 			target = f
@@ -234,14 +323,25 @@ func c08Execute(rnd *rand.Rand) *c08Run {
 		case k < 9:
 			pi := rnd.Intn(len(c08Paths))
 			e.Op, e.Arg = "Add", c08Paths[pi]
+			usedPaths = append(usedPaths, pi)
 			f.Add(c08Stmt(rnd, pi))
 		case k < 11:
 			pi := rnd.Intn(len(c08Paths))
-			if rnd.Intn(3) == 0 {
+			if len(usedPaths) > 0 && rnd.Intn(5) < 3 {
+				pi = usedPaths[rnd.Intn(len(usedPaths))] // hints for paths the history already refers to
+			}
+			if rnd.Intn(4) == 0 {
+				pj := rnd.Intn(len(c08Paths))
+				e.Op, e.Arg = "ImportNames", c08Paths[pi]+","+c08Paths[pj]
+				f.ImportNames(map[string]string{c08Paths[pi]: "nm" + strconv.Itoa(pi), c08Paths[pj]: "nm" + strconv.Itoa(pj)})
+			} else if rnd.Intn(3) == 0 {
 				e.Op, e.Arg = "ImportName", c08Paths[pi]+" nm"+strconv.Itoa(pi)
 				f.ImportName(c08Paths[pi], "nm"+strconv.Itoa(pi))
 			} else {
 				a := c08Aliases[rnd.Intn(len(c08Aliases))]
+				if rnd.Intn(4) == 0 {
+					a = "."
+				}
 				e.Op, e.Arg = "ImportAlias", c08Paths[pi]+" "+a
 				f.ImportAlias(c08Paths[pi], a)
 			}
@@ -260,7 +360,7 @@ func c08Execute(rnd *rand.Rand) *c08Run {
 		}
 		_ = target
 		_ = referenced
-		if strings.HasSuffix(e.Op, "Render") && e.Err == "" {
+		if strings.HasSuffix(e.Op, "Render") && e.Err == "" && e.Via != "failing-writer" {
 			e.Quals, e.Multi = extractQuals(e.Out)
 			if e.Op == "FileRender" {
 				specs, dups, err := extractSpecs(e.Out)
@@ -271,7 +371,7 @@ func c08Execute(rnd *rand.Rand) *c08Run {
 			}
 		}
 		run.evs = append(run.evs, e)
-		if e.Err != "" {
+		if e.Err != "" && e.Via != "failing-writer" {
 			break // a failed render ends the history (it is reported by the checker)
 		}
 	}
@@ -283,7 +383,7 @@ func histDesc(evs []hEvent) string {
 	for _, e := range evs {
 		switch e.Op {
 		case "FileRender":
-			sb.WriteString("R ")
+			sb.WriteString("R" + map[string]string{"": "", "GoString": "(GoString)", "failing-writer": "(failing writer)"}[e.Via] + " ")
 		case "StmtRender":
 			fmt.Fprintf(&sb, "S%d ", e.Target)
 		case "GroupRender":
@@ -344,7 +444,7 @@ func c08Case(r *mon.Run, idx int64) {
 }
 
 func runC08(r *mon.Run) {
-	r.SetRule("random histories of 4-20 operations over one File (File.Render, Statement.RenderWithFile, Group.RenderWithFile — each render performed twice in a row —, adding statements, ImportName/ImportAlias incl. '.', for fresh and already rendered paths, Anon of unreferenced paths, PackagePrefix toggles); Files with/without local path, prefix, NoFormat; statements with case blocks (empty/nil bodies), Dicts, Tags, nil items; judged offline on the recorded event log: repeat-equal, name-monotone, declared. non-trivial = history with >=2 renders; distinct by operation sequence")
+	r.SetRule("random histories of 4-20 operations over one File (File.Render, File.GoString, Statement.RenderWithFile, Group.RenderWithFile — each render performed twice in a row —, renders whose writer fails on purpose, adding statements, ImportName/ImportNames/ImportAlias incl. '.', for fresh and already rendered paths, Anon of unreferenced paths, PackagePrefix toggles); Files with/without local path, prefix, NoFormat; statements with case blocks (empty/nil bodies), Dicts, Tags, nil items; judged offline on the recorded event log: repeat-equal, name-monotone, declared. non-trivial = history with >=2 renders; distinct by operation sequence")
 	r.Assume("Anon on an already referenced path is excluded (as the statement says)")
 	c08NegControls(r)
 	n := r.Pick(3000, 60000)
@@ -360,7 +460,7 @@ func c08NegControls(r *mon.Run) {
 		run := c08Execute(rand.New(rand.NewSource(1000 + s)))
 		nr := 0
 		for _, e := range run.evs {
-			if e.Op == "FileRender" && len(e.Quals) > 0 {
+			if e.Op == "FileRender" && e.Via == "" && len(e.Quals) > 0 {
 				nr++
 			}
 		}
@@ -391,7 +491,7 @@ func c08NegControls(r *mon.Run) {
 	}
 	lastRender := func(evs []hEvent) int {
 		for i := len(evs) - 1; i >= 0; i-- {
-			if evs[i].Op == "FileRender" && len(evs[i].Quals) > 0 {
+			if evs[i].Op == "FileRender" && evs[i].Via == "" && len(evs[i].Quals) > 0 {
 				return i
 			}
 		}
